@@ -278,3 +278,8 @@ def run(ctx):
                     except Exception as e:  # noqa
                         ctx.violation("C04/Scenario.obstacles_by_position_intervals/raises-%s" % type(e).__name__,
                                       repr(e), {"t": t, "roles": [r.name for r in roles]})
+
+    # ambient workload (thorough tier): the repository's own tests with the contracts installed
+    if not ctx.quick and ctx.shard == 0 and ctx.only is None:
+        from vf.ambient import run_ambient
+        run_ambient(ctx, ['occupancy'])
